@@ -26,9 +26,46 @@ use crate::Value;
 ///
 /// The most natural way to traverse a singly linked list is probably by using
 /// the `list_iter` method.
-#[derive(PartialEq, Clone)]
 pub struct Cons {
     inner: Box<(Value, Value)>,
+}
+
+// `Clone` and `PartialEq` walk the `cdr` chain in a loop, like `Drop` does, so
+// that long lists do not need stack space proportional to their length.
+impl Clone for Cons {
+    fn clone(&self) -> Self {
+        let mut head = Cons::new(self.car().clone(), Value::Null);
+        let mut last = &mut head;
+        let mut rest = self.cdr();
+        while let Value::Cons(cell) = rest {
+            last.set_cdr(Cons::new(cell.car().clone(), Value::Null));
+            last = match last.cdr_mut() {
+                Value::Cons(next) => next,
+                _ => unreachable!(),
+            };
+            rest = cell.cdr();
+        }
+        last.set_cdr(rest.clone());
+        head
+    }
+}
+
+impl PartialEq for Cons {
+    fn eq(&self, other: &Cons) -> bool {
+        let (mut a, mut b) = (self, other);
+        loop {
+            if a.car() != b.car() {
+                return false;
+            }
+            match (a.cdr(), b.cdr()) {
+                (Value::Cons(x), Value::Cons(y)) => {
+                    a = x;
+                    b = y;
+                }
+                (x, y) => return x == y,
+            }
+        }
+    }
 }
 
 impl fmt::Debug for Cons {
